@@ -18,9 +18,11 @@ External pieces, all parameters (`Env`):
 * `trie` — the suffix trie of C08 (`Model/SuffixTrie.lean`), built from the rule list;
 * `isCC` — membership of an upper-cased two-letter code in `ISO_3166_1_COUNTRIES_ALPHA_2`.
 
-An unparseable URL makes `normalize_url(…, unsplit=False)` return the *string*; unpacking it
-into five names raises `ValueError` unless it has exactly five characters, in which case
-`.username` on a `str` raises `AttributeError`: errors are values of the model.
+An unparseable URL makes `normalize_url(…, unsplit=False)` return the *string* it was given
+(`url.lower()` here); `fingerprint_url` returns that string as it is, whatever `unsplit`
+(`if not isinstance(splitted, SplitResult): return splitted`, FX-C07-FPTOTAL; before that fix the
+string was unpacked into five names: `ValueError`, or `AttributeError` on five characters).
+The errors that remain are those of the accessors (`netlocAcc`, `walkHost`): values of the model.
 -/
 namespace Ural.Fingerprint
 open Ural.Py Ural.UrlParts Ural.Normalize
@@ -115,16 +117,32 @@ def fpParts (E : Env) (stripSfx : Bool) (r : Split) : Except Err Split :=
       .ok { scheme := [], netloc := unsplitNetloc a.username a.password h none,
             path := lower r.path, query := lower r.query, fragment := r.fragment.map lower }
 
-/-- `fingerprint_url(url, unsplit=False, strip_suffix, platform_aware)` -/
-def fingerprintUrlSplit (E : Env) (stripSfx : Bool) (url : Str) : Except Err Split :=
+/-- `fingerprint_url(url, unsplit=False, strip_suffix, platform_aware)`: `inl` = the string
+`normalize_url` returned for an unparseable URL (its argument, `url.lower()`), returned as it is -/
+def fingerprintUrlSplit (E : Env) (stripSfx : Bool) (url : Str) : Except Err (Str ⊕ Split) :=
   match normalizeUrlSplit E.puny E.parse E.platform fpOpts true (lower url) with
-  | .inl s => if s.length = 5 then .error .attributeError else .error .valueError
-  | .inr r => fpParts E stripSfx r
+  | .inl s => .ok (.inl s)
+  | .inr r => (fpParts E stripSfx r).map .inr
+
+/-- the tuple branch: `x.map inr = ok (inr r)` is `x = ok r` -/
+theorem map_inr_ok {α β : Type} {x : Except Err α} {r : α}
+    (h : x.map (Sum.inr : α → β ⊕ α) = .ok (.inr r)) : x = .ok r := by
+  cases x with
+  | error e => cases h
+  | ok a =>
+    simp only [Except.map] at h
+    injection h with h; injection h with h; rw [h]
+
+/-- lines 117-122 (`unsplit=True`): `urlunsplit` and the removal of a leading `//`; the string of
+an unparseable URL was returned before (same value under both `unsplit`) -/
+def fpUnsplit : Str ⊕ Split → Str
+  | .inl s => s
+  | .inr r =>
+    let s := urlunsplit r
+    if startsWith s ['/', '/'] then s.drop 2 else s
 
 /-- `fingerprint_url(url, strip_suffix, platform_aware)` -/
 def fingerprintUrl (E : Env) (stripSfx : Bool) (url : Str) : Except Err Str :=
-  (fingerprintUrlSplit E stripSfx url).map (fun r =>
-    let s := urlunsplit r
-    if startsWith s ['/', '/'] then s.drop 2 else s)
+  (fingerprintUrlSplit E stripSfx url).map fpUnsplit
 
 end Ural.Fingerprint
